@@ -5,46 +5,64 @@ use crate::report::Report;
 
 pub fn run(property: &str, tier: &str) -> i32 {
     let rep = Report::new(property, tier);
+    use std::sync::atomic::Ordering::Relaxed;
+    let e1_rule = "explicit-state search: every distinct canonical state (placement, side, rights, ep target, inherited promotion descriptor, capture-mode flag) of the S1 reach graph to the per-root depth limits and of the complete S2 small-scope families; transitions = successors produced by the engine's real generate_moves and compared with the rules oracle";
     match property {
         "C01" | "C02" | "C04" | "C05" | "C13" => {
             let r = e1_posgraph::run(&rep, Focus::for_property(property));
-            let rule = "explicit-state search: every distinct canonical state (placement, side, rights, ep target, inherited promotion descriptor, capture-mode flag) of the S1 reach graph to the per-root depth limits and of the complete S2 small-scope families; transitions = successors produced by the engine's real generate_moves and compared with the rules oracle";
-            rep.finish(r.states, r.transitions, r.validated, r.exhaustive, rule)
+            rep.finish(r.states, r.transitions, r.validated, r.exhaustive, e1_rule)
+        }
+        "C03" => {
+            // (a) positions x formatting
+            let r1 = e1_posgraph::run(&rep, Focus::for_property("C03"));
+            // (b) the search hands back only root successors, at every expiry point
+            let (points, queries, repeats) = expiry_sweep(&rep);
+            // (c)(d) go parameters and go sequences on the real binary
+            let (sessions, cmds) = crate::e4_session::c03_sessions(&rep, "C03");
+            // (e) interleavings
+            let r3 = crate::e3_driver::run(&rep, false);
+            let conf = crate::e4_session::free_running_conformance(&rep, &r3.outcomes_by_root);
+            rep.add("free_running_std_thread_runs_inside_the_enumerated_outcome_set", conf);
+            let rule = format!("(a) {}; (b) every clock-expiry index of the real search on 20 roots; (c)(d) go parameter sequences and sequences of 1..4 go commands as sessions of the real binary under virtual expiry vectors, answers replayed by the oracle; (e) all interleavings of the I/O thread with the search thread under loom for every expiry index (preemption bound 2 quick / 3 thorough, unbounded for small indices), one and two go commands", e1_rule);
+            rep.finish(r1.states + points + sessions + r3.models, r1.transitions + queries + cmds + r3.executions, r1.validated + repeats + conf, r1.exhaustive, &rule)
         }
         "C07" | "C18" => {
-            let h = crate::zobrist::ZobristHasher::create_zobrist_hasher();
-            let roots = crate::e2_clockpoints::c07_roots(&h);
-            let quick = rep.quick();
-            // heavy roots (more than 10 pieces) one iteration less
-            let depth_of = move |r: &crate::e2_clockpoints::Root| -> u8 {
-                let pieces = r.pos.b.iter().filter(|x| **x != 0).count();
-                match (quick, pieces > 10) {
-                    (true, true) => 2,
-                    (true, false) => 4,
-                    (false, true) => 3,
-                    (false, false) => 5,
-                }
-            };
-            let stats = crate::e2_clockpoints::C07Stats { points: 0.into(), node_queries: 0.into(), repeats: 0.into(), info_lines: 0.into(), residual_zero_entries: 0.into(), answers_changed_by_expiry: 0.into() };
-            crate::e2_clockpoints::sweep_expiry(&rep, &roots, &depth_of, !rep.quick(), &stats);
-            use std::sync::atomic::Ordering::Relaxed;
-            rep.add("expiry_points", stats.points.load(Relaxed));
-            rep.add("clock_consultations_executed", stats.node_queries.load(Relaxed));
-            rep.add("runs_repeated_for_determinism", stats.repeats.load(Relaxed));
-            rep.add("info_lines_checked", stats.info_lines.load(Relaxed));
-            rep.add("distinct_outcomes_summed_over_roots", stats.answers_changed_by_expiry.load(Relaxed));
-            rep.add("observation_zero_count_entries_left_in_record", stats.residual_zero_entries.load(Relaxed));
-            rep.assume("the virtual clock (i-th consultation answers i >= k) is exact for a monotone real clock; out_of_time is the only place the engine reads time for decisions");
-            let rule = format!("for each of {} roots: the un-expired run to the end of iteration {} and every expiry index k = 0..K (K = clock consultations of that run) of the real get_best_move; iterations: {} for roots with more than 10 pieces, {} otherwise; states = (root,k) points, transitions = clock consultations executed", roots.len(), "D", if quick { 2 } else { 3 }, if quick { 4 } else { 5 });
-            rep.finish(stats.points.load(Relaxed), stats.node_queries.load(Relaxed), stats.repeats.load(Relaxed), true, &rule)
+            let (points, queries, repeats) = expiry_sweep(&rep);
+            let mut states = points;
+            let mut transitions = queries;
+            let mut rule = "for each of 20 roots: the un-expired run to the end of iteration D and every expiry index k = 0..K (K = clock consultations of that run) of the real get_best_move; D per root by material (see counters); states = (root,k) points, transitions = clock consultations executed".to_string();
+            if property == "C07" {
+                let r3 = crate::e3_driver::run(&rep, false);
+                states += r3.models;
+                transitions += r3.executions;
+                rule.push_str("; plus all interleavings of the search thread with the I/O thread (loom) for every expiry index of 5 roots: nothing panics when the receiver has gone away");
+            }
+            rep.finish(states, transitions, repeats, true, &rule)
         }
-        "C10" => crate::c10::run(&rep, None),
+        "C08" => {
+            let r3 = crate::e3_driver::run(&rep, false);
+            let (sessions, cmds) = crate::e4_session::c03_sessions(&rep, "C03");
+            let smoke = crate::e4_session::wallclock_smoke(&rep);
+            rep.assume("wall-clock magnitudes are a smoke measurement with a 3 s margin; the exhaustive verdict is the virtual-time one (every schedule terminates with an answer, the search thread unwinds within a bounded number of consultations after expiry)");
+            let rule = "all interleavings (loom, preemption bound 2/3, unbounded for small expiry indices) x every expiry index on non-terminal, checkmated and stalemated roots, one and two go commands: exactly one bestmove per go, null move on a finished game, no livelock; sessions of the real binary continuing after go (isready, new position, go); wall-clock smoke run on the unhooked binary";
+            rep.finish(r3.models + sessions, r3.executions + cmds, smoke, true, rule)
+        }
+        "C09" => {
+            // pure part first (writes nothing yet), then the ordering facts in virtual time, then the smoke run
+            let r3 = crate::e3_driver::run(&rep, true);
+            let smoke = crate::e4_session::wallclock_smoke(&rep);
+            rep.add("loom_part_models", r3.models);
+            let _ = smoke;
+            crate::e5_pure::run_c09(&rep)
+        }
+        "C10" => crate::c10::run(&rep, Some(&crate::e4_session::c10_sessions)),
         "C11" => crate::e2_oracles::run_c11(&rep),
         "C12" => crate::e2_oracles::run_c12(&rep),
         "C06" => crate::e5_pure::run_c06(&rep),
-        "C09" => crate::e5_pure::run_c09(&rep),
         "C14" => crate::e5_pure::run_c14(&rep),
-        "C15" => crate::e5_pure::run_c15(&rep, None),
+        "C15" => crate::e5_pure::run_c15(&rep, Some(&crate::e4_session::c15_cli)),
+        "C16" => crate::e4_session::run_c16(&rep),
+        "C17" => crate::e4_session::run_c17(&rep),
         _ => {
             eprintln!("no check registered for {}", property);
             2
@@ -52,8 +70,193 @@ pub fn run(property: &str, tier: &str) -> i32 {
     }
 }
 
-pub fn replay(_path: &str) -> i32 {
-    let _ = J::Null;
-    eprintln!("replay not implemented yet");
-    2
+/// E2: every expiry index of every C07 root; returns (points, consultations, repeated runs)
+fn expiry_sweep(rep: &Report) -> (u64, u64, u64) {
+    use std::sync::atomic::Ordering::Relaxed;
+    let h = crate::zobrist::ZobristHasher::create_zobrist_hasher();
+    let roots = crate::e2_clockpoints::c07_roots(&h);
+    let quick = rep.quick();
+    // heavy roots (more than 10 pieces) fewer iterations
+    let depth_of = move |r: &crate::e2_clockpoints::Root| -> u8 {
+        let pieces = r.pos.b.iter().filter(|x| **x != 0).count();
+        match (quick, pieces > 10) {
+            (true, true) => 2,
+            (true, false) => 4,
+            (false, true) => 3,
+            (false, false) => 5,
+        }
+    };
+    let stats = crate::e2_clockpoints::C07Stats { points: 0.into(), node_queries: 0.into(), repeats: 0.into(), info_lines: 0.into(), residual_zero_entries: 0.into(), answers_changed_by_expiry: 0.into() };
+    crate::e2_clockpoints::sweep_expiry(rep, &roots, &depth_of, !quick, &stats);
+    rep.add("expiry_points", stats.points.load(Relaxed));
+    rep.add("clock_consultations_executed", stats.node_queries.load(Relaxed));
+    rep.add("runs_repeated_for_determinism", stats.repeats.load(Relaxed));
+    rep.add("info_lines_checked", stats.info_lines.load(Relaxed));
+    rep.add("distinct_outcomes_summed_over_roots", stats.answers_changed_by_expiry.load(Relaxed));
+    rep.add("observation_zero_count_entries_left_in_record", stats.residual_zero_entries.load(Relaxed));
+    rep.add("iterations_for_roots_with_more_than_10_pieces", if quick { 2 } else { 3 });
+    rep.add("iterations_for_other_roots", if quick { 4 } else { 5 });
+    rep.assume("the virtual clock (i-th consultation answers i >= k) is exact for a monotone real clock; out_of_time is the only place the engine reads time for decisions");
+    (stats.points.load(Relaxed), stats.node_queries.load(Relaxed), stats.repeats.load(Relaxed))
+}
+
+/// Re-execute one recorded case without the explorer, twice, and say whether the violation shows again.
+/// exit 1: reproduced (VIOLATION line printed); 0: not reproduced; 2: cannot replay.
+pub fn replay(path: &str) -> i32 {
+    let text = match std::fs::read_to_string(path) {
+        Ok(t) => t,
+        Err(e) => {
+            eprintln!("cannot read {}: {}", path, e);
+            return 2;
+        }
+    };
+    let doc = match J::parse(&text) {
+        Ok(j) => j,
+        Err(e) => {
+            eprintln!("{} is not JSON: {}", path, e);
+            return 2;
+        }
+    };
+    let property = doc.get("property").and_then(|x| x.as_str()).unwrap_or("").to_string();
+    let signature = doc.get("signature").and_then(|x| x.as_str()).unwrap_or("").to_string();
+    let case = doc.get("case").cloned().unwrap_or(J::Null);
+    let kind = case.get("kind").and_then(|x| x.as_str()).unwrap_or("").to_string();
+    println!("replaying {} [{}] kind {}", property, signature, kind);
+    let observe = |round: usize| -> Result<Vec<(String, String)>, String> {
+        let rep = Report::new(&property, "quick");
+        match kind.as_str() {
+            "e1-node" => {
+                let root = case.get("root_fen").and_then(|x| x.as_str()).ok_or("no root_fen")?;
+                let path: Vec<String> = case.get("path").and_then(|x| x.as_arr()).map(|a| a.iter().filter_map(|x| x.as_str().map(|s| s.to_string())).collect()).unwrap_or_default();
+                let mut focus = Focus::for_property(&property);
+                if property == "C15" || property == "C10" {
+                    focus = Focus::for_property("C04");
+                }
+                let ex = e1_posgraph::Explorer::new(&rep, focus);
+                let node = e1_posgraph::walk(&ex, root, &path)?;
+                let mut out = Vec::new();
+                let mut local = std::collections::BTreeMap::new();
+                ex.check_node(&node, false, &mut out, &mut local);
+                println!("  round {}: position {}", round, node.pos.fen());
+            }
+            "e2-search" | "c10-history" => {
+                let cmd = case.get("position_command").and_then(|x| x.as_str()).ok_or("no position_command")?;
+                let h = crate::zobrist::ZobristHasher::create_zobrist_hasher();
+                let root = crate::e2_clockpoints::root_from_command(cmd, &h);
+                let k = case.get("expiry_index").and_then(|x| x.as_i()).map(|x| x as u64);
+                let depth = case.get("stop_after_iteration").and_then(|x| x.as_i()).unwrap_or(3) as u8;
+                let run = crate::e2_clockpoints::run_search(&root.board, &root.table, k, if k.is_none() { depth.max(1) } else { depth });
+                println!("  round {}: {} boards handed back, panicked: {:?}", round, run.sent.len(), run.panicked);
+                for l in &run.infos {
+                    println!("    {}", crate::e2_clockpoints::strip_time(l));
+                }
+                println!("  (the full oracle of this case runs inside `bin/check {} quick`; this replay shows the raw observation)", property);
+                return Ok(run.infos.iter().map(|l| ("observation".to_string(), crate::e2_clockpoints::strip_time(l))).chain(run.panicked.iter().map(|p| ("panic".to_string(), p.clone()))).collect());
+            }
+            "e3-model" => {
+                let fen = case.get("fen").and_then(|x| x.as_str()).ok_or("no fen")?;
+                let ks = case.get("expiry").and_then(|x| x.as_str()).ok_or("no expiry")?;
+                let bound = case.get("preemption_bound").and_then(|x| x.as_str()).unwrap_or("2");
+                let gos = case.get("gos").and_then(|x| x.as_i()).unwrap_or(1).to_string();
+                let out = std::process::Command::new(crate::e3_driver::SCHED_BIN).args(["run", fen, ks, bound, &gos]).output().map_err(|e| e.to_string())?;
+                let line = String::from_utf8_lossy(&out.stdout).lines().rev().find(|l| l.starts_with('{')).unwrap_or("").to_string();
+                println!("  round {}: {}", round, line);
+                let j = J::parse(&line).map_err(|e| e)?;
+                if let Some(v @ J::Obj(_)) = j.get("violation") {
+                    return Ok(vec![(v.get("signature").and_then(|x| x.as_str()).unwrap_or("").to_string(), v.get("summary").and_then(|x| x.as_str()).unwrap_or("").to_string())]);
+                }
+                return Ok(Vec::new());
+            }
+            "e4-session" => {
+                let lines: Vec<String> = case.get("lines").and_then(|x| x.as_arr()).map(|a| a.iter().filter_map(|x| x.as_str().map(|s| s.to_string())).collect()).unwrap_or_default();
+                let ks: Vec<Option<u64>> = case.get("virtual_expiry_per_go").and_then(|x| x.as_arr()).map(|a| a.iter().map(|x| x.as_i().map(|v| v as u64)).collect()).unwrap_or_default();
+                let mut ki = 0;
+                let cmds: Vec<crate::e4_session::Cmd> = lines
+                    .iter()
+                    .map(|l| {
+                        let mut c = crate::e4_session::c(l);
+                        if crate::e4_session::is_go(l) {
+                            c.expiry = ks.get(ki).cloned().flatten();
+                            ki += 1;
+                        }
+                        c
+                    })
+                    .collect();
+                let mut opts = crate::e4_session::default_opts();
+                if case.get("end").and_then(|x| x.as_str()) == Some("stdin closed") {
+                    opts.end = crate::e4_session::End::CloseStdin;
+                    opts.timeout = std::time::Duration::from_secs(3);
+                }
+                if let Some(b) = case.get("binary").and_then(|x| x.as_str()) {
+                    if b == crate::e4_session::BIN_OFF {
+                        opts.bin = crate::e4_session::BIN_OFF;
+                        opts.hooks = false;
+                    }
+                }
+                let o = crate::e4_session::run_session(&cmds, &opts);
+                println!("  round {}: timed out {}, exit {:?}, {} of {} commands handled", round, o.timed_out, o.exit_code, o.states.len(), cmds.len());
+                for l in crate::e4_session::replies(&o) {
+                    println!("    {}", l);
+                }
+                println!("  (the full oracle of this case runs inside `bin/check {} quick`; this replay shows the raw observation)", property);
+                return Ok(crate::e4_session::replies(&o).into_iter().map(|l| ("observation".to_string(), l)).chain(if o.timed_out { vec![("timed-out".to_string(), "process had to be killed".to_string())] } else { vec![] }).collect());
+            }
+            "c15" => {
+                let input = case.get("input").and_then(|x| x.as_str()).ok_or("no input")?.to_string();
+                let r = std::panic::catch_unwind(|| crate::board::BoardState::from_fen(&input).map(|_| ()).map_err(|e| e.to_string()));
+                let obs = match r {
+                    Ok(Ok(())) => "accepted".to_string(),
+                    Ok(Err(e)) => format!("Err({})", e),
+                    Err(_) => "PANIC".to_string(),
+                };
+                println!("  round {}: from_fen({:?}) -> {}", round, input, obs);
+                return Ok(vec![("observation".to_string(), obs)]);
+            }
+            "c06" => {
+                let fen = case.get("placement_fen").and_then(|x| x.as_str()).ok_or("no placement_fen")?;
+                let pos = crate::rules::Pos::from_fen(fen).ok_or("bad fen")?;
+                let h = crate::zobrist::ZobristHasher::create_zobrist_hasher();
+                let b = crate::bridge::board_of_pos(&pos, &h);
+                let mut v = Vec::new();
+                for (c, ec, name) in [(crate::rules::WHITE, crate::board::PieceColor::White, "white"), (crate::rules::BLACK, crate::board::PieceColor::Black, "black")] {
+                    let got = crate::move_generation::is_check(&b, ec);
+                    let want = pos.king_sq(c).map(|k| pos.attacked(k, c ^ 1)).unwrap_or(false);
+                    println!("  round {}: {} king: engine {}, rules {}", round, name, got, want);
+                    if got != want {
+                        v.push((signature.clone(), format!("{} king engine {} rules {}", name, got, want)));
+                    }
+                }
+                return Ok(v);
+            }
+            _ => return Err(format!("replay of kind '{}' is done by re-running `bin/check {} quick` (the case is listed in the file)", kind, property)),
+        }
+        let v = rep.violations.lock().unwrap().iter().map(|v| (v.signature.clone(), v.summary.clone())).collect();
+        Ok(v)
+    };
+    let a = match observe(1) {
+        Ok(v) => v,
+        Err(e) => {
+            eprintln!("cannot replay: {}", e);
+            return 2;
+        }
+    };
+    let b = observe(2).unwrap_or_default();
+    if a != b {
+        eprintln!("MACHINERY-ERROR: the two replays differ (nondeterminism): {:?} vs {:?}", a, b);
+        return 2;
+    }
+    let hit: Vec<&(String, String)> = a.iter().filter(|(s, _)| *s == signature).collect();
+    if !hit.is_empty() {
+        println!("VIOLATION property={} replay={}", property, path);
+        for (s, m) in hit {
+            println!("  {} :: {}", s, m);
+        }
+        1
+    } else if a.iter().any(|(s, _)| s == "observation" || s == "panic" || s == "timed-out") {
+        println!("observation replayed identically twice (see above); verdicts are computed by bin/check");
+        0
+    } else {
+        println!("not reproduced on the current tree (both replays agree)");
+        0
+    }
 }
